@@ -46,3 +46,17 @@ def conv(node, maxlen=2000):
 def done(reproduced, msg):
     print(("REPRODUCED: " if reproduced else "NOT-REPRODUCED: ") + msg)
     sys.exit(1 if reproduced else 0)
+
+
+def probe_exception(f, ex):
+    """An exception escaping a probe: a finding only if it was raised INSIDE the code under test (innermost frame in the repository);
+    an exception raised by the probe script itself is a probe error and never counts as a reproduction."""
+    import traceback
+
+    frames = traceback.extract_tb(ex.__traceback__)
+    inner = frames[-1].filename if frames else ""
+    where = f"{inner.split('/')[-1]}:{frames[-1].lineno}" if frames else "?"
+    if "/replay/" in inner or "/bounded/" in inner or inner.endswith("common.py"):
+        print(f"PROBE-ERROR: {f.__name__} raised {type(ex).__name__}: {ex} at {where} (error of the probe, not of the code under test)")
+        return None
+    return f"{f.__name__}: the code under test raised {type(ex).__name__}: {ex} at {where}"
